@@ -17,12 +17,13 @@ import (
 // RunSpec identifies one simulated execution completely: scenario + seed (+ recorded decisions
 // when replaying). Everything else is derived from the decision stream.
 type RunSpec struct {
-	Scenario  string           `json:"scenario"`
-	Prop      string           `json:"property"` // property whose profile shapes the swarm configuration
-	Seed      uint64           `json:"seed"`
-	Decisions map[string][]int `json:"decisions,omitempty"` // non-nil: replay
-	Trace     bool             `json:"-"`
-	MaxSteps  int              `json:"max_steps,omitempty"`
+	Scenario   string           `json:"scenario"`
+	Prop       string           `json:"property"` // property whose profile shapes the swarm configuration
+	Seed       uint64           `json:"seed"`
+	Decisions  map[string][]int `json:"decisions,omitempty"` // non-nil: replay
+	Trace      bool             `json:"-"`
+	MaxSteps   int              `json:"max_steps,omitempty"`
+	StepFactor int              `json:"step_factor,omitempty"` // multiplies the scenario's step budget
 }
 
 // Violation is one oracle failure.
@@ -56,6 +57,7 @@ type RunResult struct {
 	Unmanaged  bool             `json:"unmanaged_timer,omitempty"`
 	Trace      []string         `json:"trace,omitempty"`
 	HarnessErr string           `json:"harness_error,omitempty"`
+	Blocked    string           `json:"-"`
 }
 
 // Env is what a scenario sees.
@@ -139,8 +141,35 @@ func (e *Env) HarnessError(format string, args ...interface{}) {
 // Eps is the slack the simulator itself injected so far (timer lateness, spin-guard jumps).
 func (e *Env) Eps() time.Duration { return e.S.LateTotal() }
 
-// Execute runs one simulated execution in a fresh synctest bubble.
-func Execute(t *testing.T, spec RunSpec) (res *RunResult) {
+// Execute runs one simulated execution. A run that exhausts its step budget is executed again
+// with eight times the budget: if it still does not finish, the system makes no progress (a
+// goroutine spinning through scheduling points, e.g. a select loop on a closed channel whose
+// timer is re-armed in every iteration) and that is reported; otherwise the longer run counts.
+func Execute(t *testing.T, spec RunSpec) *RunResult {
+	res := executeOnce(t, spec)
+	if res.Outcome == "stalled" && res.HarnessErr == "" {
+		res.Violations = append(res.Violations, Violation{Prop: "PANIC", Class: "deadlock",
+			Detail: fmt.Sprintf("nothing can run any more at simulated time %v and the scenario has not finished (a call into the library never returned); tasks: %s", time.Duration(res.SimTimeNs), res.Blocked)})
+		return res
+	}
+	if res.Outcome != "step-budget" || res.HarnessErr != "" {
+		return res
+	}
+	if spec.StepFactor <= 1 {
+		spec.StepFactor = 8
+		res = executeOnce(t, spec)
+		if res.Probes != nil {
+			res.Probes["step-budget-extended"]++
+		}
+	}
+	if res.Outcome == "step-budget" && res.HarnessErr == "" {
+		res.Violations = append(res.Violations, Violation{Prop: "PANIC", Class: "no-progress",
+			Detail: fmt.Sprintf("the run did not finish within %d scheduler steps (eight times the scenario's budget) at simulated time %v: the system spins without making progress; tasks: %s", res.Steps, time.Duration(res.SimTimeNs), res.Blocked)})
+	}
+	return res
+}
+
+func executeOnce(t *testing.T, spec RunSpec) (res *RunResult) {
 	sc := scenarios[spec.Scenario]
 	res = &RunResult{Spec: spec}
 	if sc == nil {
@@ -172,6 +201,7 @@ func Execute(t *testing.T, spec RunSpec) (res *RunResult) {
 			scfg.MaxSteps = spec.MaxSteps
 		}
 		s := simrt.New(scfg, dec)
+		s.StepFactor = spec.StepFactor
 		defer s.Close()
 		e.S = s
 		ncfg := simnet.Config{}
@@ -233,6 +263,9 @@ func Execute(t *testing.T, spec RunSpec) (res *RunResult) {
 		}
 		if s.Outcome == "step-budget" {
 			e.Probe("step-budget-exhausted")
+		}
+		if s.Outcome != "finished" {
+			res.Blocked = strings.ReplaceAll(strings.TrimSpace(s.BlockedAtEnd), "\n", "; ")
 		}
 	})
 	return res
